@@ -68,6 +68,10 @@ Choose ==
 
 Next == Choose
 
+\* TLC CONSTRAINT: the ph = 1 states have no successors, so they need not be stored or queued;
+\* TLC still evaluates the invariants on them (once each: Choose generates every tuple once).
+Prefix == ph = 0
+
 \* Apalache: the full domain -- every word, every delta, every timespec, every admissible
 \* now -- one function at a time (keeps the SMT problems small)
 InitFullFn(f) ==
@@ -83,6 +87,7 @@ InitFullFn(f) ==
 InitFullTime == InitFullFn("time")
 InitFullTimeout == InitFullFn("timeout")
 InitFullWall == InitFullFn("walltime") \/ InitFullFn("walltime_null")
+InitFullCalls == InitFullTime \/ InitFullWall
 \* ... the part of it outside the class wt_int64_overflow.  (Inside that class the *OrKnown
 \* invariants hold by definition, so this is all there is to prove about the pinned code.)
 InitFullWallNoOverflow ==
